@@ -23,6 +23,11 @@ def junkOf (A : Bytes) : Option PErr :=
       | .err e => some e
       | _ => none
 
+/-- where one poll of the dialer SIDE stops: the future is done, or it has just returned through
+the lazy exit (what happens afterwards is the application reading the `Negotiated` stream, in
+later polls) -/
+def dStop (old : DSt) (s : DSt) : Bool := dIsDone s || (isExpecting s && !isExpecting old)
+
 def bStepDA (P : Params) (A : Bytes) (n : Nat) (c : BCfg) : BCfg :=
   if !c.started then
     let (d', out) := dStart P.lazy P.ds
@@ -31,7 +36,7 @@ def bStepDA (P : Params) (A : Bytes) (n : Nat) (c : BCfg) : BCfg :=
                     c.dl.closed || dFailed d'⟩ }
   else if dIsDone c.d then c
   else
-    let (d', inb, out) := pollBytes (dStep P.lazy) dIsDone c.d c.ld.bytes c.ld.closed n
+    let (d', inb, out) := pollBytes (dStep P.lazy) (dStop c.d) c.d c.ld.bytes c.ld.closed n
     { c with d := d', ld := ⟨inb, c.ld.closed⟩,
              dl := ⟨c.dl.bytes ++ wireOfAll out ++ (if isExpecting d' && !isExpecting c.d then A else []),
                     c.dl.closed || dFailed d'⟩ }
